@@ -1,13 +1,113 @@
 /-
-Props/C08.lean — property theorems for C08.
+Props/C08.lean — property theorems for C08 (Reset empties a value; Reset-then-CopyTo reuse leaves no trace).
+
+`reset_correct`: for the repaired emitter model, every well-formed type tree, every well-typed value and every
+argument form, the observation the driver derives from `resetM` satisfies the driver's acceptance
+`resetAccepts` (through a pointer: the value is empty, `isEmptyV`).
+`cycle_correct`: for every well-typed initial destination and every sequence of well-typed sources whose
+maps have pairwise distinct keys, the observed history of Reset-then-CopyTo cycles (`cycleModelWith`,
+Spec/CopyObs.lean) satisfies `cycleAccepts`: after every Reset the destination is empty, after every CopyTo
+it equals that cycle's source up to nil/empty identification (`approxEq`).
+As in Props/C06.lean the observation is normalised with `dropCaps` (the driver: `canon ∘ dropCaps`, with
+`canon` a `partial def`); the `_norm` variants say what is needed of the normalisation.
+
+The model of the current tree is rejected on `reset-nil-ptr-panics` (`repo_not_correct`).
 -/
-import InspectorModel.Gen.Copy
-import InspectorModel.Gen.Reset
-import InspectorModel.Spec.CopySpec
+import InspectorModel.Proofs.C08
+import InspectorModel.Spec.CopyObs
+set_option linter.unusedSimpArgs false
+set_option linter.unusedVariables false
 namespace Inspector.C08
+open Inspector.CopyPf
 
 /-- A by-value destination is refused with the must-be-pointer error before anything is written. -/
 theorem copyTo_by_value_refused (cfg : GenCfg) (n : Node) (r l : Val) :
     (match copyToM cfg n .ptr .val r l with | .mustPointer => true | _ => false) = true := rfl
+
+/-- The emitted reset code at any node, repaired emitter: no panic, the result is well-typed and empty —
+every scalar zero, every string, byte slice, slice and map of length zero, at every depth reachable
+through non-nil pointers. -/
+theorem resetN_correct (n : Node) (v : Val) (hwf : NodeWF n = true) (hwt : WT n v = true) :
+    ∃ r, resetN GenCfg.fixed n v = .ok r ∧ WT n r = true ∧ isEmptyV r = true :=
+  resetN_ok v n hwf hwt
+
+theorem reset_correct_norm (norm : Val → Val) (hnorm : ∀ v, isEmptyV (norm v) = isEmptyV v)
+    (n : Node) (v : Val) (f : Form) (hwf : NodeWF n = true) (hwt : WT n v = true) :
+    resetAccepts f (resetObsOfWith norm (resetM GenCfg.fixed n f v)) = true := by
+  obtain ⟨r, hr, _, he⟩ := resetN_ok v n hwf hwt
+  cases f <;> simp [resetM, resetObsOfWith, resetAccepts, hr, hnorm, he]
+
+/-- C08, first half: Reset through every argument form, as the driver judges it. -/
+theorem reset_correct (n : Node) (v : Val) (f : Form) (hwf : NodeWF n = true) (hwt : WT n v = true) :
+    resetAccepts f (resetObsOfWith dropCaps (resetM GenCfg.fixed n f v)) = true :=
+  reset_correct_norm dropCaps (fun v => isEmptyV_dropCapsFuel v 64) n v f hwf hwt
+
+/-- One Reset-then-CopyTo cycle on a well-typed destination: neither step panics, the destination is empty
+in between, afterwards it is well-typed again (so the next cycle can start) and equals the source up to
+nil/empty identification. -/
+theorem cycle_step (n : Node) (d s : Val) (hwf : NodeWF n = true) (hwd : WT n d = true) (hws : WT n s = true)
+    (hk : KeysOK true n s = true) :
+    ∃ r c, resetN GenCfg.fixed n d = .ok r ∧ isEmptyV r = true ∧
+      copyN GenCfg.fixed n true r s = .ok c 0 ∧ WT n c = true ∧ approxEq s c = true := by
+  obtain ⟨r, hr, hwr, her⟩ := resetN_ok d n hwf hwd
+  obtain ⟨c, hc, hwc, ha, _⟩ := copyN_ok s n true r true hwf hws hwr (dstOK_of_empty r her) hk
+  exact ⟨r, c, hr, her, hc, hwc, ha rfl her⟩
+
+theorem cycle_correct_norm (norm : Val → Val) (n : Node) (hwf : NodeWF n = true)
+    (hn1 : ∀ v, isEmptyV (norm v) = isEmptyV v)
+    (hn2 : ∀ s v, WT n v = true → approxEq s (norm v) = approxEq s v) :
+    ∀ (srcs : List Val) (d : Val), WT n d = true → (∀ s ∈ srcs, WT n s = true ∧ KeysOK true n s = true) →
+      cycleAccepts srcs (cycleModelWith norm GenCfg.fixed n d srcs) = true
+  | [], _, _, _ => by simp [cycleModelWith, cycleAccepts]
+  | s :: rest, d, hwd, hs => by
+    obtain ⟨hws, hk⟩ := hs s (by simp)
+    obtain ⟨r, c, hr, her, hc, hwc, ha⟩ := cycle_step n d s hwf hwd hws hk
+    have ih := cycle_correct_norm norm n hwf hn1 hn2 rest c hwc (fun x hx => hs x (by simp [hx]))
+    simp [cycleModelWith, hr, hc, cycleAccepts, hn1, her, hn2 s c hwc, ha, ih]
+
+/-- C08, second half: every history of Reset-then-CopyTo cycles on one destination, as the driver judges it. -/
+theorem cycle_correct (n : Node) (hwf : NodeWF n = true) (srcs : List Val) (d : Val) (hwd : WT n d = true)
+    (hs : ∀ s ∈ srcs, WT n s = true ∧ KeysOK true n s = true) :
+    cycleAccepts srcs (cycleModelWith dropCaps GenCfg.fixed n d srcs) = true :=
+  cycle_correct_norm dropCaps n hwf (fun v => isEmptyV_dropCapsFuel v 64)
+    (fun s v hv => approxEq_dropCapsFuel s v 64 (WT_keysFlat v n hwf hv)) srcs d hwd hs
+
+section NonVacuity
+def intN (name : String := "") (ptr : Bool := false) : Node := .basic { typn := "int", typu := "int", name := name, ptr := ptr }
+def strN (name : String := "") (ptr : Bool := false) : Node := .basic { typn := "string", typu := "string", name := name, ptr := ptr }
+def innerN (name : String := "") (ptr : Bool := false) : Node := .struct { typn := "Inner", name := name, ptr := ptr } [intN "A"]
+
+/-- `type T struct { A int; P *int; I *Inner; L []*Inner; M map[string]int }`. -/
+def exNode : Node :=
+  .struct { typn := "T" } [intN "A", intN "P" true, innerN "I" true,
+    .slice { typn := "[]*Inner", name := "L" } (innerN "" true),
+    .map { typn := "map[string]int", name := "M" } strN intN]
+
+def dense : Val :=
+  .struct [.int 5, .ptr (.int 7), .ptr (.struct [.int 3]), .slice false [.ptr (.struct [.int 1]), .nilptr] 4,
+    .map false [.str (strBytes "k"), .str (strBytes "l")] [.int 1, .int 2]]
+def sparse : Val := .struct [.int 0, .nilptr, .nilptr, .slice true [] 0, .map true [] []]
+def small : Val :=
+  .struct [.int 1, .nilptr, .ptr (.struct [.int 0]), .slice false [.nilptr] 1, .map false [.str (strBytes "k")] [.int 9]]
+
+example : NodeWF exNode = true ∧ WT exNode dense = true ∧ WT exNode sparse = true ∧ WT exNode small = true ∧
+    KeysOK true exNode dense = true ∧ KeysOK true exNode sparse = true ∧ KeysOK true exNode small = true := by decide
+/-- dense → sparse → small → dense into a destination that starts dense: accepted for the repaired model. -/
+example : cycleAccepts [sparse, small, dense] (cycleModelWith dropCaps GenCfg.fixed exNode dense [sparse, small, dense]) = true := by
+  decide
+example : resetAccepts .ptr (resetObsOfWith dropCaps (resetM GenCfg.fixed exNode .ptr dense)) = true := by decide
+
+/-- `reset-nil-ptr-panics`: Reset of a value with a nil `*int` field (or a nil pointer element) dereferences it. -/
+theorem repo_not_correct :
+    resetAccepts .ptr (resetObsOfWith dropCaps (resetM GenCfg.repo exNode .ptr sparse)) = false ∧
+    resetAccepts .ptr (resetObsOfWith dropCaps (resetM { GenCfg.repo with resetNilPtrPanics := false } exNode .ptr sparse)) = true ∧
+    cycleAccepts [dense] (cycleModelWith dropCaps GenCfg.repo exNode sparse [dense]) = false := by
+  decide
+
+/-- The copy-side classes show in cycles too (`copy-nil-elem-panics` here: `dense` has a nil `*Inner` element). -/
+theorem repo_not_correct_cycle :
+    cycleAccepts [dense] (cycleModelWith dropCaps { GenCfg.repo with resetNilPtrPanics := false } exNode dense [dense]) = false := by
+  decide
+end NonVacuity
 
 end Inspector.C08
